@@ -19,7 +19,7 @@ ID = 'C16'
 NAMESPACE = 'VL.C16'
 LEAN_MODULES = ['VotelibProofs.Props.C16']
 GEN_MODULES = ['Quota']
-REQUIRED = ['passes_iff', 'sumVals_eq_sum', 'abs_threshold_exact', 'abs_threshold_order', 'rel_threshold_exact',
+REQUIRED = ['passes_iff', 'sumVals_eq_sum', 'abs_threshold_exact', 'abs_threshold_order', 'rel_threshold_exact', 'rel_threshold_exact_pos',
             'share_boundary', 'rel_threshold_zero_total', 'alternative_combine_mem', 'alternative_combine_nodup',
             'alternative_combine_sorted', 'alternative_is_union', 'alternative_error_iff', 'coalition_dispatch',
             'coalition_error_iff', 'property_variant_none', 'property_variant_some', 'property_dispatch',
@@ -31,7 +31,7 @@ REQUIRED = ['passes_iff', 'sumVals_eq_sum', 'abs_threshold_exact', 'abs_threshol
             'openlist_no_pass_over', 'openlist_overflow_votes_best', 'openlist_overflow_list_best', 'openlist_overflow_list_order',
             'break_by_list_only_tied', 'list_tiebreak_only_tied', 'break_by_list_nbest', 'sortByIndex_spec',
             'list_tiebreak_plurality_tie', 'list_tiebreak_no_tie', 'list_tiebreak_plurality_fits',
-            'list_tiebreak_quota_tie', 'openlist_error_iff']
+            'list_tiebreak_quota_tie', 'openlist_error_iff', 'sel_eval_fuel_mono']
 REQUIRED_COUNTERS = ['on_threshold_eq', 'on_threshold_noeq', 'decimal_threshold', 'int_threshold', 'fraction_threshold',
                      'alternative', 'bracketer', 'bracketer_property', 'openlist_jump', 'openlist_fill',
                      'openlist_overflow', 'openlist_precedence', 'openlist_no_threshold', 'openlist_tie',
@@ -646,7 +646,68 @@ def nontrivial(case, obs):
     return len(case['votes']) >= 2
 
 
+def _py_num(s, t):
+    v = to_py(s, t)
+    return f"Decimal('{v}')" if isinstance(v, Decimal) else (f'Fraction({v.numerator}, {v.denominator})' if isinstance(v, Fraction) else repr(v))
+
+
+def _py_sel(sel):
+    if sel is None:
+        return 'None'
+    k = sel['k']
+    if k in ('abs', 'rel'):
+        cls = 'AbsoluteThreshold' if k == 'abs' else 'RelativeThreshold'
+        return f"{cls}({_py_num(sel['t'], sel.get('ty', 'F'))}, accept_equal={sel['eq']})"
+    if k == 'alt':
+        return 'AlternativeThresholds([' + ', '.join(_py_sel(p) for p in sel['parts']) + '])'
+    if k == 'coalition':
+        return ('CoalitionMemberBracketer({' + ', '.join(f'{kk}: {_py_sel(v)}' for kk, v in sel['evs']) + '}, '
+                + _py_sel(sel['default']) + ')')
+    if k == 'property':
+        return ("PropertyBracketer('minority', {" + ', '.join(f'{kk}: {_py_sel(v)}' for kk, v in sel['evs']) + '}, '
+                + _py_sel(sel['default']) + ')')
+    return 'PreviousGainThreshold(' + _py_sel(sel['inner']) + ')'
+
+
 def describe(case):
+    """the Python call of a case, as text"""
+    op = case['op']
+    if op == 'break_by_list':
+        el = ', '.join(('Tie({' + ', '.join(f"'c{i}'" for i in x['tie']) + '})') if isinstance(x, dict) else f"'c{x}'"
+                       for x in case['elected'])
+        return f"Tie.break_by_list([{el}], {[f'c{i}' for i in case['breaker']]})"
+    types = case.get('_types') or ['F'] * len(case['votes'])
+    votes = '{' + ', '.join(f"'c{i}': {_py_num(s, t)}" for (i, s), t in zip(case['votes'], types)) + '}'
+    if op in ('abs_threshold', 'rel_threshold'):
+        cls = 'AbsoluteThreshold' if op == 'abs_threshold' else 'RelativeThreshold'
+        return f"{cls}({_py_num(case['threshold'], case.get('_ttype', 'F'))}, accept_equal={case['accept_equal']}).evaluate({votes})"
+    if op == 'seatless':
+        extra = ''
+        if sel_accepts_prev(case['sel']):
+            extra = ', prev_gains={' + ', '.join(f"'c{i}': {s}" for i, s in case.get('prev') or []) + '}'
+        return (f"{_py_sel(case['sel'])}.evaluate({votes}{extra})   # members={case.get('members')} "
+                f"minority={case.get('props')} candidate classes={case.get('_styles')}")
+
+    def q(name):
+        if name is None:
+            return 'None'
+        if name.startswith('const:'):
+            return f"quota.constant(Fraction('{name[6:]}'))"
+        return f'quota.{name}' if case.get('_quota_mode') == 'callable' else repr(name)
+    if op == 'quota_selector':
+        return (f"QuotaSelector({q(case['quota'])}, accept_equal={case['accept_equal']}, "
+                f"on_more_over_quota={case['on_more']!r}).evaluate({votes}, {case['n']})")
+    clist = [f'c{i}' for i in case['list']]
+    if op == 'openlist':
+        jf = 'None' if case.get('jump_fraction') is None else _py_num(case['jump_fraction'], case.get('_jftype', 'F'))
+        return (f"ThresholdOpenList(jump_fraction={jf}, quota_function={q(case.get('quota'))}, "
+                f"quota_fraction={_py_num(case['quota_fraction'], case.get('_qftype', 'F'))}, take_higher={case['take_higher']}, "
+                f"accept_equal={case['accept_equal']}, list_precedence={case['list_precedence']})"
+                f".evaluate({votes}, {case['n']}, {clist})")
+    if op == 'tiebreak':
+        inner = 'Plurality()' if case['inner'] == 'plurality' else \
+            f"QuotaSelector({q(case['inner'])}, accept_equal={case['accept_equal']}, on_more_over_quota='select')"
+        return f"ListOrderTieBreaker({inner}).evaluate({votes}, {case['n']}, {clist})"
     return json.dumps(strip_case(case))
 
 
@@ -1030,8 +1091,32 @@ def gen_break(rng):
     return {'op': 'break_by_list', 'elected': el, 'breaker': breaker, '_tags': ['break_by_list']}
 
 
+def gen_edge(rng):
+    """empty dicts, zero totals, more seats than list members"""
+    k = rng.choice(['empty', 'zero', 'long_n', 'zero_open'])
+    eq = rng.random() < 0.5
+    if k == 'empty':
+        op = rng.choice(['abs_threshold', 'rel_threshold'])
+        return {'op': op, 'votes': [], '_types': [], 'threshold': rng.choice(['0', '1/20', '1']), '_ttype': 'F',
+                'accept_equal': eq, '_tags': ['edge']}
+    if k == 'zero':
+        m = rng.randint(1, 4)
+        return {'op': 'rel_threshold', 'votes': [[i, '0'] for i in range(m)], '_types': ['i'] * m,
+                'threshold': rng.choice(['0', '1/20']), '_ttype': 'F', 'accept_equal': eq, '_tags': ['edge']}
+    c = gen_openlist(rng)
+    if k == 'long_n':
+        c['n'] = len(c['list']) + rng.randint(1, 2)
+    else:
+        c['votes'] = [[i, '0'] for i, _ in c['votes']]
+        c['_types'] = ['i'] * len(c['votes'])
+        if rng.random() < 0.3:
+            c['votes'], c['_types'] = [], []
+    c['_tags'] = ['edge', 'openlist']
+    return c
+
+
 def _gen(rng, tier):
-    scale = 3 if tier == 'quick' else 100
+    scale = 8 if tier == 'quick' else 100
     for _ in range(500 * scale):
         yield gen_rel_boundary(rng)
     for _ in range(250 * scale):
@@ -1056,6 +1141,8 @@ def _gen(rng, tier):
         yield gen_tiebreak(rng)
     for _ in range(200 * scale):
         yield gen_break(rng)
+    for _ in range(60 * scale):
+        yield gen_edge(rng)
     # the witnesses of the two repaired defects, always
     yield {'op': 'rel_threshold', 'votes': [[0, '5'], [1, '95']], '_types': ['i', 'i'], 'threshold': '1/20', '_ttype': 'F',
            'accept_equal': True, '_tags': ['rel_boundary', 'rel_boundary_5pct']}
